@@ -1,6 +1,5 @@
 (* Proofs/NlinkProofs.v -- Rock Ridge directory link counts (C08): invariant over arbitrary
-   histories of add_directory / rm_directory, the '..' refresh of the recomputation pass, and the
-   refutation caused by the late duplicate-name refusal of add_directory. *)
+   histories of add_directory / rm_directory and the '..' refresh of the recomputation pass. *)
 From Coq Require Import ZArith List Bool Lia.
 Import ListNotations.
 From PV.Model Require Import Nlink.
@@ -12,8 +11,8 @@ Arguments removelast : simpl never.
 Arguments peq : simpl never.
 Arguments find_node : simpl never.
 
-Ltac nsimpl := cbn [bump unbump add_dot add_entry add_dotdot sub_dot sub_entry sub_dotdot add_leak
-                    set_dotdot path entry_links dot_links dotdot_links leaked] in *.
+Ltac nsimpl := cbn [bump unbump add_dot add_entry add_dotdot sub_dot sub_entry sub_dotdot
+                    set_dotdot path entry_links dot_links dotdot_links] in *.
 
 (* ---------- paths ---------- *)
 Lemma is_child_spec q p : is_child_of q p = true <-> (p <> [] /\ removelast p = q).
@@ -130,10 +129,6 @@ Lemma path_bump q n : path (bump q n) = path n.
 Proof. destruct q; reflexivity. Qed.
 Lemma path_unbump q n : path (unbump q n) = path n.
 Proof. destruct q; reflexivity. Qed.
-Lemma leaked_bump q n : leaked (bump q n) = leaked n.
-Proof. destruct q; reflexivity. Qed.
-Lemma leaked_unbump q n : leaked (unbump q n) = leaked n.
-Proof. destruct q; reflexivity. Qed.
 
 Lemma find_node_some s q n : find_node s q = Some n -> In n s /\ path n = q.
 Proof.
@@ -187,19 +182,14 @@ Definition wf (ps : list (list Z)) : Prop :=
   NoDup ps /\ In [] ps /\ (forall p, In p ps -> p <> [] -> In (removelast p) ps).
 
 Definition okn (ps : list (list Z)) (n : node) : Prop :=
-  dot_links n = 2 + nsubp ps (path n) + leaked n /\
+  dot_links n = 2 + nsubp ps (path n) /\
   (path n = [] -> dotdot_links n = dot_links n) /\
-  (path n <> [] -> entry_links n = dot_links n) /\
-  0 <= leaked n.
+  (path n <> [] -> entry_links n = dot_links n).
 
-(* general invariant: exact, with the ghost count of leaked (refused duplicate) bumps *)
-Definition InvG (s : state) : Prop :=
+(* paths are unique, the root exists, every parent exists, and every directory carries
+   2 + #sub-directories on its '.' and on its own record (root: on '.' and '..') *)
+Definition Inv (s : state) : Prop :=
   wf (paths s) /\ forall n, In n s -> okn (paths s) n.
-
-Definition noleak (s : state) : Prop := forall n, In n s -> leaked n = 0.
-
-(* the invariant of the task statement *)
-Definition Inv (s : state) : Prop := InvG s /\ noleak s.
 
 Lemma Inv_counts s n :
   Inv s -> In n s ->
@@ -207,97 +197,86 @@ Lemma Inv_counts s n :
   (path n = [] -> dotdot_links n = 2 + nsub s (path n)) /\
   (path n <> [] -> entry_links n = 2 + nsub s (path n)).
 Proof.
-  intros [[_ HG] HL] Hin. destruct (HG n Hin) as [H1 [H2 [H3 _]]].
-  pose proof (HL n Hin) as H0. unfold nsub.
-  split; [lia|]. split; intros Hp.
-  - rewrite (H2 Hp). lia.
-  - rewrite (H3 Hp). lia.
+  intros [_ HG] Hin. destruct (HG n Hin) as [H1 [H2 H3]]. unfold nsub.
+  split; [exact H1|]. split; intros Hp.
+  - rewrite (H2 Hp). exact H1.
+  - rewrite (H3 Hp). exact H1.
 Qed.
 
-Lemma InvG_init : InvG init.
+Theorem Inv_init : Inv init.
 Proof.
   split.
   - split; [|split].
     + simpl. constructor; [intros []|constructor].
     + simpl. left. reflexivity.
     + intros p [H|[]] Hp. subst p. contradiction.
-  - intros n [H|[]]. subst n. unfold okn. simpl.
+  - intros n [H|[]]. subst n. unfold okn. nsimpl.
     split; [vm_compute; reflexivity|]. split; [intros _; reflexivity|].
-    split; [intros H; contradiction | lia].
+    intros H; contradiction.
 Qed.
 
-Lemma Inv_init : Inv init.
-Proof.
-  split; [exact InvG_init|]. intros n [H|[]]. subst n. reflexivity.
-Qed.
-
-(* ---------- one step: the four possible outcomes ---------- *)
+(* ---------- one step: the three possible outcomes ---------- *)
 Definition rm_filter (p : list Z) (s : state) : state :=
   filter (fun n => if peq (path n) p then false else true) s.
 
 Lemma step_cases s o :
-  (step s o = s /\ dup_hit s o = false /\ accepts s o = false) \/
+  (step s o = s /\ accepts s o = false) \/
   (exists p q, o = AddDir p /\ p <> [] /\ q = removelast p /\ In q (paths s) /\
-     ~ In p (paths s) /\ accepts s o = true /\ dup_hit s o = false /\
+     ~ In p (paths s) /\ accepts s o = true /\
      step s o = new_node (map_node s q (bump q)) p q :: map_node s q (bump q)) \/
-  (exists p q, o = AddDir p /\ p <> [] /\ q = removelast p /\ In q (paths s) /\
-     In p (paths s) /\ accepts s o = false /\ dup_hit s o = true /\
-     step s o = map_node (map_node s q (bump q)) q add_leak) \/
   (exists p q, o = RmDir p /\ p <> [] /\ q = removelast p /\ In p (paths s) /\
-     has_subdir s p = false /\ accepts s o = true /\ dup_hit s o = false /\
+     has_subdir s p = false /\ accepts s o = true /\
      step s o = rm_filter p (map_node s q (unbump q))).
 Proof.
   destruct o as [p|p]; destruct p as [|x p'].
   - left. auto.
-  - unfold step, accepts, dup_hit. cbv beta iota zeta.
+  - unfold step, accepts. cbv beta iota zeta.
     destruct (max_depth <? length (x :: p'))%nat; [left; auto|].
     destruct (has_node s (removelast (x :: p'))) eqn:Hq; [|left; auto].
     apply has_node_iff in Hq.
-    destruct (has_node s (x :: p')) eqn:Hp.
-    + apply has_node_iff in Hp. right. right. left.
-      exists (x :: p'), (removelast (x :: p')).
-      repeat split; auto. discriminate.
-    + apply has_node_false in Hp. right. left.
-      exists (x :: p'), (removelast (x :: p')).
-      repeat split; auto. discriminate.
+    destruct (has_node s (x :: p')) eqn:Hp; [left; auto|].
+    apply has_node_false in Hp. right. left.
+    exists (x :: p'), (removelast (x :: p')).
+    repeat split; auto. discriminate.
   - left. auto.
-  - unfold step, accepts, dup_hit. cbv beta iota zeta.
+  - unfold step, accepts. cbv beta iota zeta.
     destruct (has_node s (x :: p')) eqn:Hp; [|left; auto].
     apply has_node_iff in Hp.
     destruct (has_subdir s (x :: p')) eqn:Hs; [left; auto|].
-    right. right. right.
+    right. right.
     exists (x :: p'), (removelast (x :: p')).
     repeat split; auto. discriminate.
 Qed.
 
-Lemma step_refused_unchanged s o :
-  accepts s o = false -> dup_hit s o = false -> step s o = s.
+(* every refused operation (missing parent, duplicate name, missing or non-empty directory,
+   the root, depth > 7) leaves the state unchanged *)
+Theorem step_refused_unchanged s o : accepts s o = false -> step s o = s.
 Proof.
-  intros Ha Hd.
-  destruct (step_cases s o) as [[H _]|[H|[H|H]]]; [exact H| | |];
-    destruct H as [p [q [_ [_ [_ [_ [_ [Ha' [Hd' _]]]]]]]]]; congruence.
+  intros Ha.
+  destruct (step_cases s o) as [[H _]|[H|H]]; [exact H| |];
+    destruct H as [p [q [_ [_ [_ [_ [_ [Ha' _]]]]]]]]; congruence.
 Qed.
 
 Lemma okn_bump ps p q n :
   p <> [] -> q = removelast p -> okn ps n ->
   okn (p :: ps) (if peq (path n) q then bump q n else n).
 Proof.
-  intros Hp Hq [H1 [H2 [H3 H4]]]. unfold okn.
+  intros Hp Hq [H1 [H2 H3]]. unfold okn.
   destruct (peq (path n) q) as [E|E].
-  - rewrite path_bump, leaked_bump, nsubp_cons, E, Hq, (is_child_parent p Hp), <- Hq.
-    rewrite <- E in *. destruct n as [pn e d dd lk]. nsimpl.
+  - rewrite path_bump, nsubp_cons, E, Hq, (is_child_parent p Hp), <- Hq.
+    rewrite <- E in *. destruct n as [pn e d dd]. nsimpl.
     destruct pn as [|z pn']; nsimpl.
     + split; [lia|]. split; [intros _; rewrite (H2 eq_refl); reflexivity|].
-      split; [intros H; contradiction | exact H4].
+      intros H; contradiction.
     + split; [lia|]. split; [intros H; discriminate|].
-      split; [intros _; rewrite H3; [reflexivity|discriminate] | exact H4].
+      intros _; rewrite H3; [reflexivity|discriminate].
   - rewrite nsubp_cons, (is_child_other (path n) p); [|congruence].
-    split; [lia|]. split; [exact H2|]. split; [exact H3 | exact H4].
+    split; [lia|]. split; [exact H2 | exact H3].
 Qed.
 
 Lemma add_ok s p q :
-  InvG s -> p <> [] -> q = removelast p -> In q (paths s) -> ~ In p (paths s) ->
-  InvG (new_node (map_node s q (bump q)) p q :: map_node s q (bump q)).
+  Inv s -> p <> [] -> q = removelast p -> In q (paths s) -> ~ In p (paths s) ->
+  Inv (new_node (map_node s q (bump q)) p q :: map_node s q (bump q)).
 Proof.
   intros [[Hnd [Hroot Hcl]] HG] Hp Hq Hqin Hpnot.
   assert (paths (map_node s q (bump q)) = paths s) as HP
@@ -315,7 +294,7 @@ Proof.
     + subst n'. unfold okn, new_node, px_new. nsimpl.
       rewrite nsubp_cons, is_child_self, nsubp_zero.
       * split; [reflexivity|]. split; [intros H; contradiction|].
-        split; [intros _; reflexivity | lia].
+        intros _; reflexivity.
       * intros p' Hin. destruct (is_child_of p p') eqn:E; [|reflexivity].
         apply is_child_spec in E. destruct E as [Hne E]. exfalso. apply Hpnot.
         rewrite <- E. apply Hcl; assumption.
@@ -323,49 +302,27 @@ Proof.
       apply okn_bump; auto.
 Qed.
 
-Lemma dup_ok s q : InvG s -> In q (paths s) -> InvG (map_node (map_node s q (bump q)) q add_leak).
-Proof.
-  intros [Hwf HG] Hqin.
-  assert (paths (map_node (map_node s q (bump q)) q add_leak) = paths s) as HP.
-  { rewrite paths_map_node; [|reflexivity]. apply paths_map_node. apply path_bump. }
-  split; [rewrite HP; exact Hwf|].
-  rewrite HP. intros n'' H.
-  apply In_map_node in H. destruct H as [n' [H E]]. subst n''.
-  apply In_map_node in H. destruct H as [n [Hin E]]. subst n'.
-  destruct (HG n Hin) as [H1 [H2 [H3 H4]]]. unfold okn.
-  destruct (peq (path n) q) as [E|E].
-  - rewrite path_bump. destruct (peq (path n) q) as [_|E']; [|contradiction].
-    destruct n as [pn e d dd lk]. nsimpl. subst q.
-    destruct pn as [|z pn']; nsimpl.
-    + split; [lia|]. split; [intros _; rewrite (H2 eq_refl); reflexivity|].
-      split; [intros H; contradiction | lia].
-    + split; [lia|]. split; [intros H; discriminate|].
-      split; [intros _; rewrite H3; [reflexivity|discriminate] | lia].
-  - destruct (peq (path n) q) as [E'|_]; [contradiction|].
-    split; [exact H1|]. split; [exact H2|]. split; [exact H3 | exact H4].
-Qed.
-
 Lemma okn_unbump ps p q n :
   NoDup ps -> In p ps -> p <> [] -> q = removelast p -> okn ps n ->
   okn (filter (neqb p) ps) (if peq (path n) q then unbump q n else n).
 Proof.
-  intros Hnd Hin Hp Hq [H1 [H2 [H3 H4]]]. unfold okn.
+  intros Hnd Hin Hp Hq [H1 [H2 H3]]. unfold okn.
   destruct (peq (path n) q) as [E|E].
-  - rewrite path_unbump, leaked_unbump, (nsubp_remove p ps _ Hnd Hin), E, Hq,
+  - rewrite path_unbump, (nsubp_remove p ps _ Hnd Hin), E, Hq,
       (is_child_parent p Hp), <- Hq.
-    rewrite <- E in *. destruct n as [pn e d dd lk]. nsimpl.
+    rewrite <- E in *. destruct n as [pn e d dd]. nsimpl.
     destruct pn as [|z pn']; nsimpl.
     + split; [lia|]. split; [intros _; rewrite (H2 eq_refl); reflexivity|].
-      split; [intros H; contradiction | exact H4].
+      intros H; contradiction.
     + split; [lia|]. split; [intros H; discriminate|].
-      split; [intros _; rewrite H3; [reflexivity|discriminate] | exact H4].
+      intros _; rewrite H3; [reflexivity|discriminate].
   - rewrite (nsubp_remove p ps _ Hnd Hin), (is_child_other (path n) p); [|congruence].
-    split; [lia|]. split; [exact H2|]. split; [exact H3 | exact H4].
+    split; [lia|]. split; [exact H2 | exact H3].
 Qed.
 
 Lemma rm_ok s p q :
-  InvG s -> p <> [] -> q = removelast p -> In p (paths s) -> has_subdir s p = false ->
-  InvG (rm_filter p (map_node s q (unbump q))).
+  Inv s -> p <> [] -> q = removelast p -> In p (paths s) -> has_subdir s p = false ->
+  Inv (rm_filter p (map_node s q (unbump q))).
 Proof.
   intros [[Hnd [Hroot Hcl]] HG] Hp Hq Hpin Hsub.
   assert (paths (rm_filter p (map_node s q (unbump q))) = filter (neqb p) (paths s)) as HP.
@@ -383,60 +340,28 @@ Proof.
     apply okn_unbump; auto.
 Qed.
 
-Lemma InvG_step s o : InvG s -> InvG (step s o).
+(* Theorem 1 *)
+Theorem Inv_step s o : Inv s -> Inv (step s o).
 Proof.
-  intros HI. destruct (step_cases s o) as [[H _]|[H|[H|H]]].
+  intros HI. destruct (step_cases s o) as [[H _]|[H|H]].
   - rewrite H. exact HI.
-  - destruct H as [p [q [_ [Hp [Hq [Hqin [Hpn [_ [_ E]]]]]]]]]. rewrite E. apply add_ok; assumption.
-  - destruct H as [p [q [_ [Hp [Hq [Hqin [Hpin [_ [_ E]]]]]]]]]. rewrite E. apply dup_ok; assumption.
-  - destruct H as [p [q [_ [Hp [Hq [Hpin [Hs [_ [_ E]]]]]]]]]. rewrite E. apply rm_ok; assumption.
+  - destruct H as [p [q [_ [Hp [Hq [Hqin [Hpn [_ E]]]]]]]]. rewrite E. apply add_ok; assumption.
+  - destruct H as [p [q [_ [Hp [Hq [Hpin [Hs [_ E]]]]]]]]. rewrite E. apply rm_ok; assumption.
 Qed.
 
-Lemma noleak_step s o : dup_hit s o = false -> noleak s -> noleak (step s o).
-Proof.
-  intros Hd HL. destruct (step_cases s o) as [[H _]|[H|[H|H]]].
-  - rewrite H. exact HL.
-  - destruct H as [p [q [_ [_ [_ [_ [_ [_ [_ E]]]]]]]]]. rewrite E. intros n' [H|H].
-    + subst n'. reflexivity.
-    + apply In_map_node in H. destruct H as [n [Hin E']]. subst n'.
-      destruct (peq (path n) q); [rewrite leaked_bump|]; apply HL; exact Hin.
-  - destruct H as [p [q [_ [_ [_ [_ [_ [_ [Hd' _]]]]]]]]]. congruence.
-  - destruct H as [p [q [_ [_ [_ [_ [_ [_ [_ E]]]]]]]]]. rewrite E. intros n' H.
-    unfold rm_filter in H. apply filter_In in H. destruct H as [H _].
-    apply In_map_node in H. destruct H as [n [Hin E']]. subst n'.
-    destruct (peq (path n) q); [rewrite leaked_unbump|]; apply HL; exact Hin.
-Qed.
-
-Theorem Inv_step s o : Inv s -> dup_hit s o = false -> Inv (step s o).
-Proof.
-  intros [HG HL] Hd. split; [apply InvG_step; exact HG | apply noleak_step; assumption].
-Qed.
-
-Theorem InvG_run ops : forall s, InvG s -> InvG (run s ops).
+Lemma Inv_run_from ops : forall s, Inv s -> Inv (run s ops).
 Proof.
   induction ops as [|o r IH]; intros s H; [exact H|].
-  simpl. apply IH. apply InvG_step. exact H.
+  simpl. apply IH. apply Inv_step. exact H.
 Qed.
 
-Lemma Inv_run_from ops : forall s, Inv s -> clean s ops = true -> Inv (run s ops).
-Proof.
-  induction ops as [|o r IH]; intros s H Hc; [exact H|].
-  simpl in *. apply andb_true_iff in Hc. destruct Hc as [Hd Hc].
-  apply negb_true_iff in Hd. apply IH; [apply Inv_step; assumption | exact Hc].
-Qed.
-
-(* Theorem 1 (strongest true form): for every history without a duplicate add *)
-Theorem Inv_run_partial ops : clean init ops = true -> Inv (run init ops).
-Proof. apply Inv_run_from. exact Inv_init. Qed.
-
-(* Theorem 1 (general exact form): for every history, counts = 2 + #subdirs + leaked *)
-Theorem InvG_run_init ops : InvG (run init ops).
-Proof. apply InvG_run. exact InvG_init. Qed.
+Theorem Inv_run : forall ops, Inv (run init ops).
+Proof. intros ops. apply Inv_run_from. exact Inv_init. Qed.
 
 (* ---------- the '..' refresh ---------- *)
 Lemma refresh_fields s n :
   path (refresh s n) = path n /\ entry_links (refresh s n) = entry_links n /\
-  dot_links (refresh s n) = dot_links n /\ leaked (refresh s n) = leaked n.
+  dot_links (refresh s n) = dot_links n.
 Proof.
   unfold refresh. destruct (path n) as [|z l] eqn:E.
   - rewrite E. auto.
@@ -476,12 +401,12 @@ Lemma find_node_reshuffle s q :
 Proof. unfold reshuffle. apply find_node_map. apply refresh_path. Qed.
 
 (* reshuffle touches nothing but '..' counts ... *)
-Definition strip (n : node) := (path n, entry_links n, dot_links n, leaked n).
+Definition strip (n : node) := (path n, entry_links n, dot_links n).
 
 Theorem reshuffle_only_dotdot s : map strip (reshuffle s) = map strip s.
 Proof.
   unfold reshuffle. rewrite map_map. apply map_ext. intros n. unfold strip.
-  destruct (refresh_fields s n) as [H1 [H2 [H3 H4]]]. rewrite H1, H2, H3, H4. reflexivity.
+  destruct (refresh_fields s n) as [H1 [H2 H3]]. rewrite H1, H2, H3. reflexivity.
 Qed.
 
 (* ... and not the root's '..' *)
@@ -505,7 +430,7 @@ Proof.
   assert (In (path n0) (paths s)) as Hp by (unfold paths; apply in_map; exact Hin0).
   destruct (find_node_in s _ (Hcl _ Hp Hne)) as [pn Hf].
   exists (refresh s pn). rewrite find_node_reshuffle, Hf. simpl.
-  destruct (refresh_fields s pn) as [H1 [H2 [H3 _]]].
+  destruct (refresh_fields s pn) as [H1 [H2 H3]].
   pose proof (find_node_some _ _ _ Hf) as [_ Hpp].
   split; [reflexivity|]. split; [congruence|].
   rewrite (refresh_nonroot s n0 pn Hne Hf), H1, H2, H3, Hpp. reflexivity.
@@ -524,48 +449,43 @@ Proof.
         as Hf' by (rewrite Hp, find_node_reshuffle, Hf; reflexivity).
       rewrite (refresh_nonroot (reshuffle s) (set_dotdot n v) (refresh s pn));
         [|rewrite Hp; exact Hne | exact Hf'].
-      destruct (refresh_fields s pn) as [_ [H2 [H3 _]]]. rewrite Hp, H2, H3. reflexivity.
+      destruct (refresh_fields s pn) as [_ [H2 H3]]. rewrite Hp, H2, H3. reflexivity.
     + rewrite (refresh_orphan s n Hf). apply refresh_orphan.
       rewrite find_node_reshuffle, Hf. reflexivity.
 Qed.
 
 Theorem reshuffle_idempotent s : reshuffle (reshuffle s) = reshuffle s.
 Proof.
-  unfold reshuffle at 1. unfold reshuffle at 2 3. rewrite map_map. apply map_ext. intros n. apply refresh_idem.
+  unfold reshuffle at 1. unfold reshuffle at 2 3. rewrite map_map. apply map_ext.
+  intros n. apply refresh_idem.
 Qed.
 
-Lemma InvG_reshuffle s : InvG s -> InvG (reshuffle s).
+Lemma Inv_reshuffle s : Inv s -> Inv (reshuffle s).
 Proof.
   intros [Hwf HG]. split; rewrite paths_reshuffle; [exact Hwf|].
   intros n' H. unfold reshuffle in H. apply in_map_iff in H. destruct H as [n [E Hin]]. subst n'.
-  destruct (HG n Hin) as [H1 [H2 [H3 H4]]].
-  destruct (refresh_fields s n) as [F1 [F2 [F3 F4]]]. unfold okn.
-  rewrite F1, F2, F3, F4. split; [exact H1|]. split; [|split; assumption].
+  destruct (HG n Hin) as [H1 [H2 H3]].
+  destruct (refresh_fields s n) as [F1 [F2 F3]]. unfold okn.
+  rewrite F1, F2, F3. split; [exact H1|]. split; [|assumption].
   intros Hr. rewrite (refresh_root s n Hr). apply H2. exact Hr.
 Qed.
 
-Lemma noleak_reshuffle s : noleak s -> noleak (reshuffle s).
-Proof.
-  intros HL n' H. unfold reshuffle in H. apply in_map_iff in H. destruct H as [n [E Hin]].
-  subst n'. destruct (refresh_fields s n) as [_ [_ [_ F4]]]. rewrite F4. apply HL. exact Hin.
-Qed.
-
 (* ---------- Theorem 3 ---------- *)
-(* shape of the conclusion, parameterised by the per-directory excess [ex] *)
-Definition nlink_ok (s : state) (ex : node -> Z) : Prop :=
+(* what an independent reader expects as st_nlink on the three records of every directory *)
+Definition nlink_ok (s : state) : Prop :=
   forall n, In n s ->
-    dot_links n = 2 + nsub s (path n) + ex n /\
-    (path n = [] -> dotdot_links n = 2 + nsub s [] + ex n) /\
+    dot_links n = 2 + nsub s (path n) /\
+    (path n = [] -> dotdot_links n = 2 + nsub s []) /\
     (path n <> [] ->
-       entry_links n = 2 + nsub s (path n) + ex n /\
+       entry_links n = 2 + nsub s (path n) /\
        exists pn, find_node s (removelast (path n)) = Some pn /\
                   path pn = removelast (path n) /\
-                  dotdot_links n = 2 + nsub s (path pn) + ex pn).
+                  dotdot_links n = 2 + nsub s (path pn)).
 
-Lemma InvG_nlink_ok r : InvG r -> nlink_ok (reshuffle r) leaked.
+Lemma Inv_nlink_ok r : Inv r -> nlink_ok (reshuffle r).
 Proof.
-  intros HI. pose proof (InvG_reshuffle r HI) as [Hwf HG].
-  intros n Hin. destruct (HG n Hin) as [H1 [H2 [H3 _]]]. unfold nsub.
+  intros HI. pose proof (Inv_reshuffle r HI) as [Hwf HG].
+  intros n Hin. destruct (HG n Hin) as [H1 [H2 H3]]. unfold nsub.
   split; [exact H1|]. split.
   - intros Hr. rewrite (H2 Hr), H1, Hr. reflexivity.
   - intros Hne. split; [rewrite (H3 Hne); exact H1|].
@@ -573,65 +493,16 @@ Proof.
     destruct (reshuffle_dotdot r n Hwf0 Hin Hne) as [pn [Hf [Hp Hd]]].
     exists pn. split; [exact Hf|]. split; [exact Hp|].
     pose proof (find_node_some _ _ _ Hf) as [Hpin _].
-    destruct (HG pn Hpin) as [P1 [_ [P3 _]]]. rewrite Hd.
+    destruct (HG pn Hpin) as [P1 [_ P3]]. rewrite Hd.
     destruct (path pn) as [|z l] eqn:E.
     + rewrite P1, ?E. reflexivity.
     + rewrite P3, P1, ?E; [reflexivity | rewrite ?E; discriminate].
 Qed.
 
-(* general exact statement, every history *)
-Theorem C08_nlink_general ops : nlink_ok (reshuffle (run init ops)) leaked.
-Proof. apply InvG_nlink_ok. apply InvG_run_init. Qed.
+Theorem C08_nlink : forall ops, nlink_ok (reshuffle (run init ops)).
+Proof. intros ops. apply Inv_nlink_ok. apply Inv_run. Qed.
 
-(* the task's statement, under the exact extra hypothesis: no duplicate add in the history *)
-Theorem C08_nlink_partial ops :
-  clean init ops = true -> nlink_ok (reshuffle (run init ops)) (fun _ => 0).
-Proof.
-  intros Hc. destruct (Inv_run_partial ops Hc) as [HG HL].
-  pose proof (noleak_reshuffle _ HL) as HL'.
-  pose proof (InvG_nlink_ok _ HG) as H.
-  intros n Hin. destruct (H n Hin) as [H1 [H2 H3]].
-  rewrite (HL' n Hin) in *. split; [exact H1|]. split; [exact H2|].
-  intros Hne. destruct (H3 Hne) as [H4 [pn [Hf [Hp Hd]]]]. split; [exact H4|].
-  exists pn. split; [exact Hf|]. split; [exact Hp|].
-  pose proof (find_node_some _ _ _ Hf) as [Hpin _].
-  rewrite (HL' pn Hpin) in Hd. exact Hd.
-Qed.
-
-(* ---------- Theorem 4: refutations (witness found by vm_compute, reproduced on the real
-   library: new(rock_ridge='1.09'); add_directory('/D1', rr_name='d1') twice (second raises
-   'Failed adding duplicate name to parent'); force_consistency(): root '.' and '..' hold 4,
-   one sub-directory exists) ---------- *)
-Definition dup_witness : list op := [AddDir [1]; AddDir [1]].
-
-Theorem C08_nlink_refuted :
-  exists ops, ~ nlink_ok (reshuffle (run init ops)) (fun _ => 0).
-Proof.
-  exists dup_witness. intros H.
-  destruct (H (mkNode [] 0 4 4 1)) as [H1 _].
-  - vm_compute. right. left. reflexivity.
-  - vm_compute in H1. discriminate.
-Qed.
-
-Theorem Inv_run_refuted : exists ops, ~ Inv (run init ops).
-Proof.
-  exists dup_witness. intros [_ HL].
-  assert (In (mkNode [] 0 4 4 1) (run init dup_witness)) as Hin
-    by (vm_compute; right; left; reflexivity).
-  specialize (HL _ Hin). discriminate.
-Qed.
-
-(* a refused operation that changes the state *)
-Theorem step_refused_unchanged_refuted :
-  exists s o, Inv s /\ accepts s o = false /\ step s o <> s.
-Proof.
-  exists (run init [AddDir [1]]), (AddDir [1]). split; [|split].
-  - apply Inv_run_partial. vm_compute. reflexivity.
-  - vm_compute. reflexivity.
-  - vm_compute. intros H. discriminate.
-Qed.
-
-(* ---------- Theorem 5: examples, expected values printed by the real library ---------- *)
+(* ---------- examples, expected values printed by the real library ---------- *)
 Example nlink_ex1 :
   run_probe [AddDir [1]; AddDir [2]; AddDir [1;1]; AddDir [1;2]; AddDir [1;1;1]] =
   [([], 0, 4, 4); ([1], 4, 4, 4); ([1;1], 3, 3, 4); ([1;1;1], 2, 2, 3); ([1;2], 2, 2, 4);
@@ -656,23 +527,24 @@ Example nlink_ex1_raw :
    ([2], 2, 2, 4)].
 Proof. vm_compute. reflexivity. Qed.
 
-(* the duplicate-add leak, as observed on the real library *)
+(* a refused duplicate add_directory ('Failed adding duplicate name to parent') leaves the
+   counts alone: the root holds 3 = 2 + one sub-directory (the library before the repair of
+   add_directory left 4 here) *)
 Example nlink_ex_dup :
+  run_probe [AddDir [1]; AddDir [1]] = [([], 0, 3, 3); ([1], 2, 2, 3)].
+Proof. vm_compute. reflexivity. Qed.
+
+Example nlink_ex_dup2 :
   run_probe [AddDir [1]; AddDir [1;1]; AddDir [1;1]; AddDir [1;1]] =
-  [([], 0, 3, 3); ([1], 5, 5, 3); ([1;1], 2, 2, 5)].
+  [([], 0, 3, 3); ([1], 3, 3, 3); ([1;1], 2, 2, 3)].
 Proof. vm_compute. reflexivity. Qed.
 
 Print Assumptions Inv_init.
 Print Assumptions Inv_step.
-Print Assumptions Inv_run_partial.
-Print Assumptions InvG_run_init.
+Print Assumptions Inv_run.
 Print Assumptions step_refused_unchanged.
 Print Assumptions reshuffle_dotdot.
 Print Assumptions reshuffle_only_dotdot.
 Print Assumptions reshuffle_root_unchanged.
 Print Assumptions reshuffle_idempotent.
-Print Assumptions C08_nlink_general.
-Print Assumptions C08_nlink_partial.
-Print Assumptions C08_nlink_refuted.
-Print Assumptions Inv_run_refuted.
-Print Assumptions step_refused_unchanged_refuted.
+Print Assumptions C08_nlink.
